@@ -803,6 +803,112 @@ def r9_memory_chiplet(ctx, F):
                       "the rows Memory::fill_trace writes for the accesses %s and %s do not satisfy chiplet constraint #%d (%d violated evaluations): residual %s" % (a[:4], b[:4], ci, len(bad), v))
 
 
+def r10_hasher_chiplet(ctx, F):
+    """the hasher's trace-producing methods (permute, hash_control_block, hash_span_block for 1..4 batches, build_merkle_root and
+    update_merkle_root for paths of depth 1..3) are interpreted on symbolic inputs, the round function replaced by fresh state
+    symbols; every consecutive pair of the rows they append is substituted, with the periodic masks of its position, into the
+    hasher chiplet's selector, node-index and state-copy constraints (the RPO round constraints, which mention the round
+    constants, are outside this rule): all must vanish"""
+    R = opmodel.restricted_air(F)
+    cs, ce = R["ranges"]["chiplets"]
+    n_sel = F.const(r"^miden_air::constraints::chiplets::NUM_CONSTRAINTS$")
+    n_h = F.const(r"^miden_air::constraints::chiplets::hasher::NUM_CONSTRAINTS$")
+    group = R["by_opcode"][0][cs + n_sel:cs + n_sel + n_h]
+    CH = F.const(r"^miden_air::trace::CHIPLETS_OFFSET$")
+    rng = lambda name: F.const(r"^miden_air::trace::chiplets::%s$" % name)
+    S0 = rng("HASHER_SELECTOR_COL_RANGE")["fields"][0]
+    H0 = rng("HASHER_STATE_COL_RANGE")["fields"][0]
+    IDX = rng("HASHER_NODE_INDEX_COL_IDX")
+    RINV = pow(2 ** 64 % P, -1, P)
+
+    def mask(name):
+        k = F.const(name)
+        vals = [(v if isinstance(v, int) else v.get("val", v)) for v in (k["fields"] if isinstance(k, dict) else k)]
+        return [v * RINV % P if v > 1 else v for v in vals]
+    K = [mask(r"^miden_air::constraints::chiplets::hasher::HASH_K%d_MASK$" % i) for i in range(3)]
+    hadt = F.adt(r"^miden_processor::chiplets::hasher::Hasher$")
+    tadt = F.adt(r"^miden_processor::chiplets::hasher::trace::HasherTrace$")
+    badt = F.adt(r"^miden_core::program::blocks::span_block::OpBatch$")
+    word = lambda n: Agg([Poly.var("%s%d" % (n, i)) for i in range(4)], "array")
+    digest = lambda n: Agg([word(n)], "adt", "miden_crypto::hash::rpo::RpoDigest", "RpoDigest")
+
+    def scenario(name, call):
+        ctx.inst(key="hasher|" + name, nontrivial=True)
+        I = Interp(F)
+        procmodel.install_field(I)
+        cnt = [0]
+        ov = lambda rx, m: I.overrides.insert(0, (re.compile(rx), m))
+
+        def apply_round(I_, a, f):
+            st = deref(a[0])
+            cnt[0] += 1
+            st.items[:] = [Poly.var("r%d_%d" % (cnt[0], j)) for j in range(len(st.items))]
+            return Agg([], "tuple")
+        ov(r"hasher::apply_round$|Rpo256::apply_round$", apply_round)
+        ov(r"Hasher::get_memoized_trace$", lambda I_, a, f: Agg([], "adt", "core::option::Option", "None"))
+        ov(r"Hasher::insert_to_memoized_trace_map$", lambda I_, a, f: Agg([], "tuple"))
+        ov(r"MerklePath@(core::ops::)?(deref::)?Deref::deref$", lambda I_, a, f: Ptr([deref(a[0])], 0))
+        ov(r"OpBatch::groups$", lambda I_, a, f: Ptr(deref(a[0]).items, 1))
+        ov(r"RpoDigest@(core::ops::)?(deref::)?Deref::deref$", lambda I_, a, f: Ptr(deref(a[0]).items, 0))
+        # &[Felt][a..b].try_into::<[Felt; N]>() -> Ok(array)
+        ov(r"TryInto::try_into$", lambda I_, a, f: Agg([Agg(list((a[0] if isinstance(a[0], SlicePtr) else I_.as_slice(a[0])).values()), "array")], "adt", "core::result::Result", "Ok"))
+        trace = Agg([Agg([Agg([], "vec") for _ in range(3)], "array"), Agg([Agg([], "vec") for _ in range(12)], "array"), Agg([], "vec")], "adt", tadt["id"], tadt["variants"][0]["name"])
+        me = Agg([trace, Agg([], "btreemap")], "adt", hadt["id"], hadt["variants"][0]["name"])
+        fn_of = lambda n: F.fn(r"^miden_processor::chiplets::hasher::Hasher::%s$" % n)
+        try:
+            call(I, Ptr([me], 0), fn_of)
+        except (Unanalysable, PanicReached) as e:
+            ctx.violation("UNANALYSABLE|hasher|%s" % name, "processor/src/chiplets/hasher/mod.rs", str(e)[:300])
+            return
+        sel, st, idx = [c.items for c in trace.items[0].items], [c.items for c in trace.items[1].items], trace.items[2].items
+        n = len(idx)
+        if n == 0 or n % 8 or any(len(c) != n for c in sel + st):
+            ctx.violation("hasher-rows|%s" % name, "processor/src/chiplets/hasher/trace.rs", "%s appends %s rows per column (a multiple of 8 expected in every column)" % (name, sorted(set(len(c) for c in sel + st + [idx]))))
+            return
+        row = lambda i: {S0 + j: sel[j][i] for j in range(3)} | {H0 + j: st[j][i] for j in range(12)} | {IDX: idx[i]}
+        bad, n_eval = [], 0
+        for i in range(n - 1):
+            cur, nxt = row(i), row(i + 1)
+            sub = {"c%d" % CH: 0, "n%d" % CH: 0, "p0": K[0][i % 8], "p1": K[1][i % 8], "p2": K[2][i % 8]}
+            for c_, v in cur.items():
+                sub["c%d" % c_] = v
+            for c_, v in nxt.items():
+                sub["n%d" % c_] = v
+            for ci, poly in enumerate(group):
+                if not isinstance(poly, Poly):
+                    continue
+                if any(re.match(r"^p\d+$", v) and int(v[1:]) >= 3 for v in poly.vars()):
+                    continue        # RPO round constraints (mention the round constants)
+                v = poly.subst(sub)
+                if any(re.match(r"^[cnp]\d+$", x) for x in v.vars()):
+                    continue
+                n_eval += 1
+                if not v.is_zero():
+                    bad.append((i, cs + n_sel + ci, str(v)[:120]))
+        ctx.oblig(not bad)
+        ctx.sample({"scenario": name, "rows": n, "row_pair_constraint_evaluations": n_eval})
+        if n_eval < (n - 1) * 10:
+            ctx.violation("ANCHOR-LOST|hasher-constraints|%s" % name, "air/src/constraints/chiplets/hasher/mod.rs", "only %d evaluations for %d rows" % (n_eval, n))
+        if bad:
+            i, ci, v = bad[0]
+            ctx.violation("hasher-row-vs-constraint|%s" % name, "processor/src/chiplets/hasher/mod.rs",
+                          "%s: rows %d -> %d of the trace it appends (position %d of the 8-row cycle, selectors %s -> %s) do not satisfy chiplet constraint #%d (%d violated evaluations): residual %s"
+                          % (name, i, i + 1, i % 8, [repr(sel[j][i]) for j in range(3)], [repr(sel[j][i + 1]) for j in range(3)], ci, len(bad), v))
+        return n
+
+    scenario("permute", lambda I, me, fn: I.call(fn("permute").id, [me, Agg([Poly.var("x%d" % i) for i in range(12)], "array")]))
+    scenario("hash_control_block", lambda I, me, fn: I.call(fn("hash_control_block").id, [me, word("h1_"), word("h2_"), Poly.var("domain"), digest("exp")]))
+    for nb in (1, 2, 3, 4):
+        def span(I, me, fn, nb=nb):
+            batches = [Agg([Agg([], "vec"), Agg([Poly.var("g%d_%d" % (b, i)) for i in range(8)], "array"), Agg([0] * 8, "array"), 8], "adt", badt["id"], badt["variants"][0]["name"]) for b in range(nb)]
+            return I.call(fn("hash_span_block").id, [me, SlicePtr(batches, 0, nb), digest("exp")])
+        scenario("hash_span_block|%d-batches" % nb, span)
+    for depth, index in ((1, 1), (2, 2), (3, 5)):
+        path = lambda: Agg([digest("sib%d_" % k) for k in range(depth)], "vec")
+        scenario("build_merkle_root|depth-%d" % depth, lambda I, me, fn, depth=depth, index=index: I.call(fn("build_merkle_root").id, [me, word("leaf"), Ptr([Agg([digest("sib%d_" % k) for k in range(depth)], "vec")], 0), Poly.const(index)]))
+        scenario("update_merkle_root|depth-%d" % depth, lambda I, me, fn, depth=depth, index=index: I.call(fn("update_merkle_root").id, [me, word("old"), word("new"), Ptr([Agg([digest("sib%d_" % k) for k in range(depth)], "vec")], 0), Poly.const(index)]))
+
+
 def run(ctx, F):
     ctx.trusted += ["rustc MIR via mirfacts", "mirsym abstract interpreter and the abstract Process model (vlib/procmodel.py)", "docs/src/design as oracle"]
     ctx.assumptions += ["handler values the model treats as fresh (u32 limbs, memory, advice, hasher results) are not substituted: those constraints are counted as undecided",
@@ -816,6 +922,7 @@ def run(ctx, F):
     from . import rules_c12
     ctx.run_rule("C03-R8", "bitwise chiplet: the eight rows Bitwise::u32and / u32xor append for bit-symbolic operands satisfy every bitwise transition constraint (with the periodic masks of their row), and the returned value is the AND / XOR of the operands", r8_bitwise_chiplet, F)
     ctx.run_rule("C03-R9", "memory chiplet: for a scenario of reads and writes (two contexts, repeated and first accesses, small and large clock gaps) the rows Memory::fill_trace writes satisfy every memory transition constraint pairwise, and reads return the last word written or zeros", r9_memory_chiplet, F)
+    ctx.run_rule("C03-R10", "hasher chiplet: the rows appended by permute / hash_control_block / hash_span_block (1..4 batches) / build_merkle_root and update_merkle_root (depth 1..3) satisfy the chiplet's selector, node-index and state-copy constraints pairwise (round function abstracted)", r10_hasher_chiplet, F)
     ctx.run_rule("C03-R7", "RangeChecker::add_range_checks counts every value once and records all values of a row, also when the row already has lookups (the b_range column of an honest trace must return to 1)", rules_c12.r5_range_conservation, F)
     ctx.run_rule("C03-R6b", "chiplet rows = hasher + bitwise + memory + kernel ROM + one padding row; component starts are the cumulative sums", r6b_chiplet_rows, F)
     ctx.run_rule("C03-R6", "trace length = next_power_of_two(max(range rows, clk, chiplet rows) + NUM_RAND_ROWS), independent of capacity hints", r6_trace_len, F)
